@@ -25,8 +25,8 @@ META = {
         'observable; host file bytes = model image after CLOSE. Directed core (gap reproducers incl. the D5 shape reclen 2 / one '
         'record / PUT #1,4 for every reclen 1..8, boundary record numbers) in both tiers.'),
     'level_note': (
-        'Trusted: Python file I/O, Session.set_variable/get_variable for strings. Not pinned by the statement and not tested: GET '
-        'beyond the end of the file (contents), buffer contents right after OPEN (the model treats them as unknown until a GET or a '
+        'Trusted: Python file I/O, Session.set_variable/get_variable for strings. Not pinned by the statement and not judged: FIELD contents after a GET '
+        'beyond the end of the file (LOC, LOF and the following implicit position ARE judged), buffer contents right after OPEN (the model treats them as unknown until a GET or a '
         'complete LSET), LOC before the first access, fractional record numbers, record numbers 2^25+1 .. 2^25+3 (their single-'
         'precision value is 2^25), PUT at record numbers that would need files above a few hundred KB (the upper bound 2^25 is '
         'exercised with GET only), different record lengths on one file, two numbers on the same file (C26).'),
@@ -34,7 +34,7 @@ META = {
              'history; non-trivial = at least one PUT and one GET'),
     'design_ref': 'DESIGN.md section 4 C25',
     'assumptions': ['host file I/O through Python is correct', 'LSET/RSET = left/right justify, blank pad, truncate on the right'],
-    'require_counters': {'any': ['puts', 'gets', 'gaps_written', 'gap_records_read_zero', 'implicit_positions', 'bad_recno_refused',
+    'require_counters': {'any': ['puts', 'gets', 'gets_beyond_end', 'implicit_after_get_beyond_end', 'gaps_written', 'gap_records_read_zero', 'implicit_positions', 'bad_recno_refused',
                                  'reopens', 'host_images_compared']},
     'timeout': {'quick': 900, 'thorough': 10800},
 }
@@ -44,7 +44,7 @@ def plan(tier, seed):
     shards = [{'kind': 'directed', 'part': 0}]
     if tier == 'quick':
         for i in range(11):
-            shards.append({'kind': 'random', 'part': i, 'n': 190})
+            shards.append({'kind': 'random', 'part': i, 'n': 175})
     else:
         for i in range(40):
             shards.append({'kind': 'random', 'part': i, 'n': 1200})
@@ -157,8 +157,27 @@ def gen_history(rng):
             ch.put(r)
             ops.append({'op': 'put', 'f': fno, 'r': r, 'form': form})
         elif x < 0.88:
-            # GET (never beyond the end: contents not pinned there)
             H = img.highest
+            if rng.random() < 0.18 and (H + 42) * img.reclen <= 400000:
+                # GET beyond the end: contents unpinned (not judged), but LOC and the implicit position are pinned
+                r = H + rng.randint(1, 40)
+                ch.get(r)
+                ops.append({'op': 'get', 'f': fno, 'r': r, 'form': rng.choice(['lit', 'lit', 'int', 'sng', 'dbl', 'nohash'])})
+                y = rng.random()
+                if y < 0.5:
+                    # complete the buffer, then PUT without a record number: must address record r+1
+                    for name, off, w in list(ch.fields):
+                        data = _rand_data(rng, w)
+                        how = 'rset' if rng.random() < 0.3 else 'lset'
+                        getattr(ch, how)(name, data)
+                        ops.append({'op': how, 'f': fno, 'var': name, 'data': data})
+                    if ch.known():
+                        ch.put(None)
+                        ops.append({'op': 'put', 'f': fno, 'r': None, 'form': 'none', 'after_beyond': True})
+                elif y < 0.75:
+                    ch.get(None)
+                    ops.append({'op': 'get', 'f': fno, 'r': None, 'form': 'none', 'after_beyond': True})
+                continue
             if not H:
                 continue
             if rng.random() < 0.3 and ch.next_record() <= H:
@@ -301,11 +320,19 @@ def run_history(box, case, res):
                 ctx = 'put:overwrite'
             if op['r'] is None:
                 res.count('implicit_positions')
+            if op.get('after_beyond'):
+                res.count('implicit_after_get_beyond_end')
+                ctx = 'put:implicit-after-get-beyond-end'
             hash_ = b'' if op['form'] == 'nohash' else b'#'
             ok(b'PUT %s%d%s' % (hash_, fno, recno_arg(op)), 'put')
             ch.put(op['r'])
             nput += 1
             res.count('puts')
+            if ctx == 'put:implicit-after-get-beyond-end':
+                lof = box.ev(b'LOF(%d)' % fno)
+                if lof != ch.image.lof():
+                    fail('put:implicit-after-get-beyond-end:wrong-record', 'reclen %d, %d records, GET #%d,%d then PUT #%d must write record %d: LOF=%r, expected %d'
+                         % (ch.image.reclen, H, fno, target - 1, fno, target, lof, ch.image.lof()))
             if ctx == 'put:gap':
                 # name the mechanism: the record did not land at reclen*(r-1)
                 lof = box.ev(b'LOF(%d)' % fno)
@@ -321,11 +348,15 @@ def run_history(box, case, res):
             r = ch.get(op['r'])
             nget += 1
             res.count('gets')
-            if op.get('beyond'):
-                res.count('upper_bound_accepted')
+            if op.get('after_beyond'):
+                res.count('implicit_after_get_beyond_end')
+            if r > ch.image.highest:
+                # beyond the end: FIELD contents are not pinned and not judged; LOF must not move, LOC must be r
+                res.count('upper_bound_accepted' if op.get('beyond') else 'gets_beyond_end')
                 lof = box.ev(b'LOF(%d)' % fno)
                 if lof != ch.image.lof():
                     fail('get:beyond-end-changes-lof', 'GET #%d,%d changed LOF to %r' % (fno, r, lof))
+                check_lof_loc(fno, ch, 'get-beyond-end')
                 continue
             if r not in ch.image.records:
                 res.count('gap_records_read_zero')
@@ -401,6 +432,25 @@ def directed_cases():
         ops += [{'op': 'get', 'f': 2, 'r': r, 'form': 'dbl'} for r in (6, 4, 3, 2, 1, 5)]
         ops += [{'op': 'close', 'f': 2}]
         cases.append({'ops': ops})
+    # GET beyond the end, then LOC and implicit positions
+    for reclen in (1, 2, 7, 128):
+        for have in (0, 1, 3):
+            for dist in (1, 2, 40):
+                for follow in ('put', 'get-put', 'loc'):
+                    ops = [{'op': 'open', 'f': 1, 'name': 'E.DAT', 'reclen': reclen, 'syntax': 0, 'layout': [('A1$', reclen)]}]
+                    for r in range(1, have + 1):
+                        ops += [{'op': 'lset', 'f': 1, 'var': 'A1$', 'data': bytes([0x60 + r]) * reclen}, {'op': 'put', 'f': 1, 'r': r, 'form': 'lit'}]
+                    r = have + dist
+                    ops.append({'op': 'get', 'f': 1, 'r': r, 'form': 'lit'})
+                    if follow == 'get-put':
+                        ops.append({'op': 'get', 'f': 1, 'r': None, 'form': 'none', 'after_beyond': True})
+                        r += 1
+                    if follow != 'loc':
+                        ops += [{'op': 'lset', 'f': 1, 'var': 'A1$', 'data': b'W' * reclen},
+                                {'op': 'put', 'f': 1, 'r': None, 'form': 'none', 'after_beyond': True},
+                                {'op': 'get', 'f': 1, 'r': r + 1, 'form': 'lit'}, {'op': 'get', 'f': 1, 'r': r, 'form': 'lit'}]
+                    ops.append({'op': 'close', 'f': 1})
+                    cases.append({'ops': ops})
     # record number range
     ops = [{'op': 'open', 'f': 1, 'name': 'B.DAT', 'reclen': 4, 'syntax': 0, 'layout': [('A1$', 4)]},
            {'op': 'lset', 'f': 1, 'var': 'A1$', 'data': b'data'}, {'op': 'put', 'f': 1, 'r': 1, 'form': 'lit'}]
